@@ -23,6 +23,7 @@ package report
 //@   groundunfold cntSt
 //@   ensures err == nil ==> event == nil && extraDetails == nil
 //@   ensures err != nil ==> event != nil && len(stacks) == len(details)
+//@   ensures err != nil ==> fresh(event) && fresh(event.Extra) && fresh(event.Tags) && fresh(extraDetails)
 //@   ensures err != nil && cntSt(stacks, 0) == 0 ==> len(event.Exception) == 1 && event.Exception[0].Module == domainOf(err) && event.Exception[0].Stacktrace == nil
 //@   ensures err != nil && cntSt(stacks, 0) > 0 ==> len(event.Exception) == cntSt(stacks, 0)
 //@   ensures err != nil ==> (forall j int :: 0 <= j && j < len(stacks) && stacks[j] != nil ==> event.Exception[cntSt(stacks, 0) - 1 - cntSt(stacks, j + 1)].Stacktrace == stacks[j] && event.Exception[cntSt(stacks, 0) - 1 - cntSt(stacks, j + 1)].Module == domainOf(err))
